@@ -189,8 +189,14 @@ def check(ctx, doc, ops, directed):
                      ("asdicts", lambda: jsonpath.JSONPatch(copy.deepcopy(f1.value.asdicts()))), ("deepcopy", lambda: copy.deepcopy(f1.value)), ("pickle", lambda: pickle.loads(pickle.dumps(f1.value))),
                      ("tuple", lambda: jsonpath.JSONPatch(tuple(copy.deepcopy(ops)))), ("generator", lambda: jsonpath.JSONPatch(o_ for o_ in copy.deepcopy(ops))), ("iter", lambda: jsonpath.JSONPatch(iter(copy.deepcopy(ops)))),
                      ("map", lambda: jsonpath.JSONPatch(map(dict, copy.deepcopy(ops)))), ("mappingproxy-elements", lambda: jsonpath.JSONPatch([types.MappingProxyType(o_) for o_ in copy.deepcopy(ops)])),
-                     ("another-interpreter", lambda: foreign("patch", copy.deepcopy(ops)))):
+                     ("another-interpreter", lambda: foreign("patch", copy.deepcopy(ops)))) + tuple(
+                         # the JSON document form read from a binary file in a Unicode encoding (json recognises utf-8/16/32
+                         # from the bytes; Windows tools write a byte-order mark) and from a text file
+                         ("binary file %s%s" % (enc, " raw" if raw_ else ""), (lambda enc=enc, raw_=raw_: jsonpath.JSONPatch(io.BytesIO(json.dumps(ops, ensure_ascii=not raw_).encode(enc, "surrogatepass")))))
+                         for enc in ("utf-8", "utf-8-sig", "utf-16", "utf-16-le", "utf-16-be", "utf-32", "utf-32-be") for raw_ in (False, True)):
         if name == "another-interpreter" and ctx.rng.random() > 0.1:
+            continue
+        if name.startswith("binary file") and ctx.rng.random() > 0.15:
             continue
         o = impl.call(fn)
         if not o.ok and isinstance(o.exc, ForeignFailed):
